@@ -199,7 +199,8 @@ Definition step_coll (s : st) : option st :=
     | Some sl =>                                   (* version.load(acquire) of slot i *)
       let m' := if lwm_update m (ver sl) then lwm_assign (ver sl) else m in
       Some (with_col s (set_cp c (CScan (S i) m')))
-    | None => Some (with_col s (set_cp c (CReclaim (lwm_ret m) 0)))
+    | None =>                                      (* the mark is sampled inside reclaim_start_from, on every call *)
+      Some (with_col s (set_cp c (CReclaim (lwm_sample (lwm_ret m)) 0)))
     end
   | CReclaim lwm r =>
     let i := (cindex c + r)%nat in
